@@ -53,6 +53,7 @@ type JobResult struct {
 	JoinMerges  int
 	Obligations int
 	Trivial     int
+	Folded      int
 	Discharged  int
 	OvfChecks   int
 	Failures    []Failure
@@ -121,6 +122,7 @@ func runJob(l *Loaded, spec *Spec, job Job) (res JobResult) {
 		res.JoinMerges = e.JoinMerges
 		res.Obligations = e.AssertQ
 		res.Trivial = e.Trivial
+		res.Folded = e.Folded
 		res.Discharged = e.Discharged
 		res.OvfChecks = e.OvfChecks
 		res.Failures = e.Failures
@@ -176,7 +178,25 @@ func main() {
 	workers := flag.Int("workers", 1, "parallel jobs")
 	known := flag.String("known", "", "comma separated open known-finding signature names")
 	hashes := flag.Bool("hashes", true, "include source hashes of executed pint functions")
+	mkReplay := flag.String("mkreplay", "", "instead of running: write native replay overlay files into this directory and print overlay JSON")
+	selftest := flag.Bool("selftest", false, "check the solver plumbing and exit")
 	flag.Parse()
+	if *selftest {
+		os.Exit(selfTest())
+	}
+	if *mkReplay != "" {
+		hs := strings.Split(*harness, ",")
+		ov, notApplied, err := MakeReplayOverlay(*repo, *pkg, hs, *mkReplay)
+		if err != nil {
+			fmt.Fprintln(os.Stderr, "mkreplay:", err)
+			os.Exit(2)
+		}
+		b, _ := json.MarshalIndent(map[string]any{"Replace": ov}, "", " ")
+		os.WriteFile(*mkReplay+"/overlay.json", b, 0o644)
+		nb, _ := json.Marshal(notApplied)
+		fmt.Println(string(nb))
+		return
+	}
 
 	var spec Spec
 	if *specFile != "" {
@@ -335,3 +355,44 @@ func allFunctions(prog *ssa.Program, names map[string]bool) map[*ssa.Function]bo
 var timeTimeNamed *types.Named
 
 var _ = sort.Strings
+
+// selfTest checks the solver plumbing: sat/unsat verdicts, model extraction, integer-mode division semantics.
+func selfTest() int {
+	IntMode = true
+	bad := 0
+	for _, bin := range []string{"z3"} {
+		s, err := NewSolver(bin, 10000)
+		if err != nil {
+			fmt.Println("selftest: cannot start", bin, err)
+			return 2
+		}
+		x := Var("x", BV(64))
+		b := Var("b", BV(8))
+		// Go: -7 / 2 == -3, -7 % 2 == -1
+		q := BVBin("bvsdiv", x, ConstBV(2, 64))
+		r := BVBin("bvsrem", x, ConstBV(2, 64))
+		pc := []*Term{Eq(x, ConstBV(uint64(^uint64(6)), 64))} // x = -7
+		if s.Check(pc, Not(And(Eq(q, ConstBV(^uint64(2), 64)), Eq(r, ConstBV(^uint64(0), 64))))) != Unsat {
+			fmt.Println("selftest: truncated division encoding wrong on", bin)
+			bad++
+		}
+		s.EndModel()
+		if s.Check(nil, And(BVCmp("bvsgt", x, ConstBV(41, 64)), BVCmp("bvslt", x, ConstBV(43, 64)), Eq(b, ConstBV(200, 8)))) != Sat {
+			fmt.Println("selftest: expected sat on", bin)
+			bad++
+		} else {
+			m := s.Values(map[string]*Term{"x": x, "b": b, "w": Resize(b, 64, false), "sw": Resize(b, 64, true)})
+			if m["x"] != 42 || m["b"] != 200 || m["w"] != 200 || int64(m["sw"]) != -56 {
+				fmt.Println("selftest: model extraction wrong on", bin, m)
+				bad++
+			}
+		}
+		s.EndModel()
+		s.Close()
+	}
+	if bad == 0 {
+		fmt.Println("selftest ok")
+		return 0
+	}
+	return 2
+}
